@@ -208,8 +208,13 @@ PROPS["C17"] = {
             "descriptions (windows 1..3, up to 30 character n-grams and 12 type n-grams incl. the 0x04 letter, stored vectors sometimes "
             "longer than the window needs, 0..8 dictionaries with membership masks, 0..3 tag slots) encoded to files by the harness's "
             "Rust encoder AND by the Lean encoder (bytes compared), converted by the REAL reader + TryFrom; every ~60th (quick) / every "
-            "(thorough) truncation point; non-trivial = distinct case that produced a file or a converted model",
+            "(thorough) truncation point; each description additionally in two files whose ignored parts carry content (tag models, global tags, "
+            "self/subword dictionaries, tag vectors, inherited Aho-Corasick outputs and failure links) as raw-byte cases with expected result; "
+            "type n-grams with letters outside DRHTKO must be rejected; the real convert_kytea_model tool on whole and truncated files; "
+            "non-trivial = distinct case that produced a file or a converted model",
     "scopes": {"quick": "every 5th prefix of resources/kytea-model.bin; ~60 prefixes of each generated file", "thorough": "every truncation point"},
+    "bin_build": extras.build_repo_bins,
+    "extras": [extras.c17_cli_convert],
     "assumptions": ["f64 fields of the KyTea file are opaque 8-byte fields"],
 }
 PROPS["C18"] = {
